@@ -1,3 +1,12 @@
 // harnesses for crate::audio (child module: sees private items)
 #![allow(dead_code, unused_imports)]
 use super::*;
+use crate::verif_k::vk_assert;
+
+/// read access to the private sample store for harnesses in other modules
+pub(crate) fn frame_samples(f: &Frame) -> &[i32] {
+    &f.samples
+}
+pub(crate) fn frame_shape(f: &Frame) -> (usize, usize, u32) {
+    (f.channels, f.channel_len, f.bits_per_sample)
+}
